@@ -107,6 +107,36 @@ def run(ctx):
                     via = rng.choice(['rules_obj', 'rules_obj', 'own_default', 'dict', 'ctor', 'ctor_own_default'])
                     cases.append(ec.enforce_case(rules, {'by': 'name', 'name': query, 'doraise': dr}, {}, {'roles': roles},
                                                  dflt=dflt, want='c03', via=via))
+    # sessions: the rule store of one long-lived enforcer is changed through set_rules
+    # (replace or merge) and clear between calls; a queried name is decided by the store
+    # as it is at the time of the call (spec/Trace_Store.tla)
+    sessions = []
+    for i in range(60 if q else 1500):
+        pool = [ev.T, ev.F, R, ev.rule('d'), ev.Not(ev.rule('n2')), ev.rule('zz')]
+        start = [(n, rng.choice(pool)) for n in rng.sample(['n1', 'n2', 'd', 'default'], rng.randint(0, 3))]
+        dflt = rng.choice([None, ('name', 'd'), ('opt', 'd'), ('opt', None), ('check', R)])
+        if cyclic(start, dflt):
+            continue
+        sess = ec.Session(start, dflt, via=rng.choice(['rules_obj', 'dict']))
+        for step in range(rng.randint(3, 7)):
+            r = rng.random()
+            if r < 0.45:
+                newr = [(n, rng.choice(pool)) for n in rng.sample(['n1', 'n2', 'd', 'default'], rng.randint(0, 2))]
+                ow = rng.random() < 0.4
+                merged = newr if ow else list(dict(dict(sess.cur), **dict(newr)).items())
+                if cyclic(merged, dflt):
+                    continue
+                sess.set_rules(newr, overwrite=ow, how=rng.choice(['rules_obj', 'dict', 'own_default']))
+            # (Enforcer.clear() is not part of these sessions: it resets the enforcer's default-rule
+            #  attribute but the rule store keeps the old one until the next replacing set_rules; the
+            #  statement does not say which of the two "is configured" then)
+            for _ in range(rng.randint(1, 2)):
+                sess.enforce({'by': 'name', 'name': rng.choice(['n1', 'n2', 'd', 'zz', 'default'])}, {}, {'roles': rng.choice([[], ['r']])})
+        sessions.append(sess)
+    for si, evi in ec.judge_sessions(ctx, sessions):
+        ctx.violation('session:decision-ignores-current-rule-store', 'after the rule store was changed through the API a decision is not the one the current store gives',
+                      {'history': sessions[si].log[:40], 'failing_event_index': evi, 'default_rule': repr(sessions[si].dflt)})
+    ctx.cover['sessions'] = len(sessions)
     bad = ec.judge(ctx, cases)
     for c in bad:
         qn = c['call']['name']
